@@ -49,7 +49,7 @@ def plan(tier, seed):
     cases = []
     for i in range(N_CASES[tier]):
         rng = core.case_rng(seed, PROPERTY, i)
-        forced = {0: 'alzr', 1: 'nialcr', 2: 'almgsi', 3: 'alzr', 4: 'nialcr'}.get(i % 8)
+        forced = {0: 'alzr', 1: 'nialcr', 2: 'almgsi', 3: 'alzr', 4: 'nialcr', 5: 'cuti', 6: 'cuti'}.get(i % 8)   # cuti: binary, two precipitate phases
         sites = None
         if i % 8 in (3, 4, 5):
             sites = ['grain boundaries', 'grain edges', 'grain corners']
